@@ -116,6 +116,7 @@ class C02(HistoryProperty):
         if rng.random() < 0.002:
             return self._long_sweep_case(rng)
         cfg = gen.swarm_cfg(rng, off=("alloptions", "shape_change", "dangling"), on=("dsclass",))
+        cfg["user_evaluatables"] = rng.random() < 0.4  # user-defined Evaluatable subclasses in the place of plain Options
         cfg["odd_returns"] = rng.random() < 0.3  # bodies returning a container that holds something uncopyable
         cfg["mutating_bodies"] = rng.random() < 0.4  # bodies that work in place on a section / list taken from the options
         if cfg["mutating_bodies"]:
@@ -124,9 +125,27 @@ class C02(HistoryProperty):
         for n in spec["nodes"]:
             if n["k"] == "dataset" and n.get("cache", "default") == "default":
                 n["cache"] = "recording"
+        shared_leaf = None
+        if rng.random() < 0.12:
+            # ONE user-defined leaf object used twice: directly by a cached dataset, and as a branch of a switch elsewhere
+            k0 = len(spec["nodes"])
+            spec["nodes"] += [
+                {"k": "opt", "key": "A", "default": {"t": "const", "v": 0}, "impl": "user", "id": f"u{k0}"},
+                {"k": "dataset", "name": "ULEAF", "args": {"a": f"u{k0}"}, "cache": "recording", "id": f"u{k0 + 1}"},
+                {"k": "val", "v": "other", "id": f"u{k0 + 2}"},
+                {"k": "switch", "dispatch": "M", "lookup": [["a", f"u{k0}"]], "default": f"u{k0 + 2}", "id": f"u{k0 + 3}"},
+                {"k": "dataset", "name": "USWITCH", "args": {"x": f"u{k0 + 3}"}, "cache": "recording", "id": f"u{k0 + 4}"},
+            ]
+            spec["roots"] = spec["roots"] + [f"u{k0 + 1}", f"u{k0 + 4}"]
+            shared_leaf = (f"u{k0 + 1}", f"u{k0 + 4}")
         dg = U.DictGen(rng, cfg, no_list_keys=gen.hashable_required_keys(spec))
         dg.MUTATIONS = ["repeat"] * 4 + ["never"] * 3 + ["permute"] * 3 + ["change", "change", "delete", "add", "sibling", "fresh", "template"]
         ops = gen_history(rng, cfg, spec, dictgen=dg)
+        if shared_leaf:
+            o = dict(rng.choice(ops)["o"], M="a", A=rng.choice([1, 2]))
+            at = rng.randrange(len(ops) + 1)
+            ops[at:at] = [{"op": "evaluate", "node": shared_leaf[0], "o": o, "mut": "shared-leaf"}, {"op": "evaluate", "node": shared_leaf[1], "o": o, "mut": "shared-leaf"},
+                          {"op": "evaluate", "node": shared_leaf[0], "o": o, "mut": "repeat"}]
         # validate() / keys() asked BEFORE an evaluation with the same dictionary: what they have to evaluate on the way (a
         # dispatch, a bind source) is stored like any other value, with its effects
         for k in range(len(ops) - 1, -1, -1):
